@@ -94,8 +94,11 @@ def rule2(ctx, fl):
         ctx.ob('C08.2', 'push only of a non-null waiter', okn, 'the push is reached only after the slot was seen non-null', loc=p.loc)
         ctx.ob('C08.2', 'slot cleared before the push', any(f.dominates_f(c, p) for c in clears),
                'u->th = 0 precedes the push: once runnable the waiter may immediately wait again on the same variable', loc=p.loc)
-        ctx.ob('C08.2', 'push on own run queue', lib.arg_is_field_of(f, p.args[0], 'myth_running_env.runnable_q'),
-               'the waiter is handed to the signaler\'s scheduler', loc=p.loc)
+        from .c02 import env_origin_ok
+        oko, why = env_origin_ok(f, p.args[0])
+        ctx.ob('C08.2', 'push on own run queue', lib.arg_is_field_of(f, p.args[0], 'myth_running_env.runnable_q') and oko and not why,
+               'the waiter is handed to the signaler\'s scheduler (the run queue of the executing worker: push is an owner-only operation)',
+               loc=p.loc, detail='' if oko else str(why))
         for r in f.exits():
             ctx.ob('C08.2', 'no return before the push', f.dominates_f(p, r), 'signal returns only after the hand-over', loc=r.loc)
     # the spin: null edge leads only back to a load
@@ -134,6 +137,8 @@ def run(ctx):
 
 SYNC = 'src/myth_sync_func.h'
 MUTANTS = [
+    {'name': 'signal pushes the waiter on the run queue of the worker it last ran on (hand mutant r6)', 'expect': 'C08.2',
+     'edits': [(SYNC, "  to_wake->env = env;\n  u->th = 0;\n  myth_queue_push(&env->runnable_q, to_wake);\n  return 0;", "  u->th = 0;\n  myth_queue_push(&to_wake->env->runnable_q, to_wake);\n  return 0;")]},
     {'name': 'native myth_uncond_signal forwards to wait', 'expect': 'C08.6',
      'edits': [('src/myth_if_native.c', "  return myth_uncond_signal_body(u);", "  return myth_uncond_wait_body(u);")]},
     {'name': 'uncond_init forgets the waiter slot', 'expect': 'C08.4',
